@@ -146,6 +146,43 @@ template <typename A, typename B>
 auto __redu_max(A a, B b) -> decltype(a + b) {
   return b > a ? b : a;
 }
+
+// Python's // rounds the quotient towards minus infinity (C: towards zero).
+template <typename A, typename B>
+auto __redu_floordiv(A a, B b) -> decltype(a + b) {
+  typedef decltype(a + b) R;
+  R x = a;
+  R y = b;
+  R q = static_cast<R>(static_cast<long>(x / y));
+  if (q * y != x && ((x < 0) != (y < 0))) {
+    q -= 1;
+  }
+  return q;
+}
+
+// Python's % takes the sign of the divisor (C: of the dividend) and works on floats.
+template <typename A, typename B>
+auto __redu_mod(A a, B b) -> decltype(a + b) {
+  typedef decltype(a + b) R;
+  R x = a;
+  R y = b;
+  R r = x - y * static_cast<R>(static_cast<long>(x / y));
+  if (r != 0 && ((r < 0) != (y < 0))) {
+    r += y;
+  }
+  return r;
+}
+
+template <typename A, typename B>
+auto __redu_pow(A a, B b) -> decltype(a + b) {
+  typedef decltype(a + b) R;
+  double p = pow(static_cast<double>(a), static_cast<double>(b));
+  if (static_cast<R>(0.5) == 0) {
+    // integer operands: pow() works in floating point, so round, do not truncate
+    return static_cast<R>(p < 0 ? p - 0.5 : p + 0.5);
+  }
+  return static_cast<R>(p);
+}
 """
 
 LIST_HELPER_SNIPPET = """template <typename T>
